@@ -20,6 +20,9 @@ type histRun struct {
 	Nontrivial []string // a case is non-trivial if any of these model counters is > 0
 	Opt        *hist.SimOptions
 	Mutate     func(r *vk.Rand, cfg *hist.Config, ops []hist.Op) []hist.Op
+	PerCase    func(i int) (*hist.SimOptions, func()) // per-case simulator options (e.g. a fresh store) and their cleanup
+	Extra      map[string]any                         // added to every witness (e.g. the backend)
+	Skip       func(f hist.Finding) bool              // findings decided (and recorded) by another property's check
 }
 
 func (h *histRun) owns(rule string) bool {
@@ -53,9 +56,18 @@ func (h *histRun) run(c *vk.Ctx) {
 }
 
 func (h *histRun) exec(c *vk.Ctx, i int, cfg *hist.Config, ids []string, ops []hist.Op, witnessed *atomic.Int64) {
-	res := hist.RunCase(cfg, ids, ops, true, h.Opt)
+	runOnce := func() *hist.CaseResult {
+		opt := h.Opt
+		if h.PerCase != nil {
+			o, cleanup := h.PerCase(i)
+			defer cleanup()
+			opt = o
+		}
+		return hist.RunCase(cfg, ids, ops, true, opt)
+	}
+	res := runOnce()
 	if res.Incon != "" {
-		res = hist.RunCase(cfg, ids, ops, true, h.Opt) // retry once
+		res = runOnce() // retry once
 		if res.Incon != "" {
 			c.Inconclusive(h.Prop + " case " + res.Incon)
 			return
@@ -74,7 +86,7 @@ func (h *histRun) exec(c *vk.Ctx, i int, cfg *hist.Config, ids []string, ops []h
 	c.Eval(vk.Hash(h.Label, string(ob), cfg), nontrivial)
 	own := 0
 	for _, f := range res.Findings {
-		if !h.owns(f.Rule) {
+		if !h.owns(f.Rule) || (h.Skip != nil && h.Skip(f)) {
 			c.Count("foreign_rule/"+f.Rule, 1)
 			continue
 		}
@@ -85,6 +97,11 @@ func (h *histRun) exec(c *vk.Ctx, i int, cfg *hist.Config, ids []string, ops []h
 			witness = map[string]any{"config": cfg, "slot_client_ids": ids, "ops": ops, "failing_step": f.Step, "trace": res.Trace, "profile": h.Profile.Name, "case": i}
 		} else {
 			witness = map[string]any{"config": cfg, "slot_client_ids": ids, "ops": ops, "failing_step": f.Step, "profile": h.Profile.Name, "case": i}
+		}
+		if wm, ok := witness.(map[string]any); ok {
+			for k, v := range h.Extra {
+				wm[k] = v
+			}
 		}
 		c.Violate(f.Rule, f.Attrs, f.Detail, witness)
 	}
